@@ -425,11 +425,17 @@ func (v *vc) havocLoc(st *state, l loc) {
 // ---------- ghost updates ----------
 
 func (v *vc) ghostUpdates(fr *frame, st *state, where string) {
-	if !fr.top || fr.fc == nil {
+	// "at <where>: ghost ..." applies to the function under contract; "at <where> in <fn>: ghost ..."
+	// applies to the body of an inlined callee / closure named <fn>.
+	if v.fc == nil {
 		return
 	}
-	for _, g := range fr.fc.ghostAt {
-		if g.where != where {
+	for _, g := range v.fc.ghostAt {
+		if fr.top {
+			if g.where != where {
+				continue
+			}
+		} else if g.where != where+" in "+fr.fn.Name() {
 			continue
 		}
 		se := v.newSpecEnv(fr, st, nil)
